@@ -258,9 +258,14 @@ fn calculate_new_withdraw_rate(
         if slashed_amount.0.u128() != 0u128 {
             slashed_amount_of_batch += Uint256::one();
         }
-        actual_unbonded_amount_of_batch = Uint256::from(
-            SignedInt::from_subtraction(unbonded_amount_of_batch, slashed_amount_of_batch).0,
-        );
+        // the slashed share (plus its rounding unit) can exceed what the batch expected: nothing is left then
+        let remaining =
+            SignedInt::from_subtraction(unbonded_amount_of_batch, slashed_amount_of_batch);
+        actual_unbonded_amount_of_batch = if remaining.1 {
+            Uint256::zero()
+        } else {
+            Uint256::from(remaining.0)
+        };
     }
 
     // Calculate the new withdraw rate
